@@ -1,7 +1,7 @@
 // C19 (a): inclusion and emptiness verdicts do not depend on how the operands are numbered / inserted.
 // Symbolic pair (A over NA states, B over NB states, universe alphabet SYM_RANKS).  The library operands are built as
 // TWINS: states renamed by a symbolic permutation (pa of A, pb of B; optionally spread to sparse numbers by BASE/STRIDE),
-// rules and final states inserted in a symbolic order (NORD of: forward, backward, rotated, odd-then-even), symbols
+// rules and final states inserted in a symbolic order (orders ORDBASE .. ORDBASE+NORD-1 of: forward, backward, rotated, odd-then-even), symbols
 // renumbered by the concrete table SYMMAP.  Solver variables: presence/finality bits of A and B, permutation and order bits.
 //   OP 0: verdict of selection SEL on the twin pair == numbering-free macro-state oracle on (A, B); IsLangEmpty of both
 //         twins == oracle.  Since the identity/forward twin is one of the cases, every twin agrees with the original.
@@ -27,6 +27,9 @@ using namespace VATA;
 #ifndef NORD
 #define NORD 4
 #endif
+#ifndef ORDBASE
+#define ORDBASE 0
+#endif
 #ifndef BASE
 #define BASE 0
 #endif
@@ -51,14 +54,14 @@ extern "C" void harness(void)
 {
   U::SymAut<NA> A; A.draw();
   U::SymAut<NB> B; B.draw();
-  const unsigned pa = vs_range(TW::Perms<NA>::COUNT), pb = vs_range(TW::Perms<NB>::COUNT), ord = vs_range(NORD);
+  const unsigned pa = vs_range(TW::Perms<NA>::COUNT), pb = vs_range(TW::Perms<NB>::COUNT), ord = ORDBASE + vs_range(NORD);
   ExplicitTreeAut a, b;
-  TW::build<NA>(A, a, pa, ord, NORD, BASE, STRIDE, SYMPTR);
-  TW::build<NB>(B, b, pb, ord, NORD, BASE, STRIDE, SYMPTR);
+  TW::build<NA>(A, a, pa, ord, ORDBASE + NORD, BASE, STRIDE, SYMPTR);
+  TW::build<NB>(B, b, pb, ord, ORDBASE + NORD, BASE, STRIDE, SYMPTR);
 #if OP == 0
   bool expect = U::included<NA, NB>(A, B);
 #ifdef VS_SELFTEST_1
-  expect = expect && !(A.pres[0] && pa == TW::Perms<NA>::COUNT - 1 && ord == NORD - 1);   // seeded: oracle wrong for ONE twin only
+  expect = expect && !(A.pres[0] && pa == TW::Perms<NA>::COUNT - 1 && ord == ORDBASE + NORD - 1);   // seeded: oracle wrong for ONE twin only
 #endif
   const bool verdict = run(a, b, SEL);
   CHECK(verdict == expect, 1);
@@ -77,7 +80,7 @@ extern "C" void harness(void)
     if (first) { v0 = vt; first = false; } else agree &= (vt == v0);
   }
 #ifdef VS_SELFTEST_1
-  same = same && !(A.pres[0] && ord == NORD - 1);            // seeded: claims a difference for one insertion order
+  same = same && !(A.pres[0] && ord == ORDBASE + NORD - 1);            // seeded: claims a difference for one insertion order
 #endif
   CHECK(same, 11);      // renaming / reordering never changes a verdict
   CHECK(agree, 12);     // every selected inclusion algorithm returns the same verdict
